@@ -333,39 +333,47 @@ def thread_known_variants(j, max_chain=5):
             head = chain[0]
             hp = sorted(set(preds.get(head, [])))
             if len(hp) < 2: continue
-            for pi in hp:
+            cands = [(pi, []) for pi in hp]      # (predecessor, join blocks between it and the chain head that are cloned with the chain)
+            while cands:
+                pi, prefix = cands.pop(0)
+                full = prefix + chain
+                first = full[0]
                 P = blocks[pi]
-                if P.get("cleanup") or pi in chain: continue
+                if P.get("cleanup") or pi in full: continue
                 if P["term"]["k"] == "goto": pass
                 elif P["term"]["k"] == "switch":
-                    if edge_fact(P, head) is None: continue
+                    if edge_fact(P, first) is None: continue
                 else: continue
                 env, denv, alias = entry_state(pi)
                 for st in P["stmts"]: step_stmt(st, env, denv, alias)
                 step_term(P, env, denv, alias)
-                ef = edge_fact(P, head)
+                ef = edge_fact(P, first)
                 if ef: learn(ef[0], ef[1], denv, alias)
-                for ci in chain:
+                for ci in full:
                     cb = blocks[ci]
                     for st in cb["stmts"]: step_stmt(st, env, denv, alias)
                     if ci != S["i"]: step_term(cb, env, denv, alias)
                 d = on["place"]["local"]
-                if d not in denv: continue
+                if d not in denv:
+                    # the predecessor is itself a bare join (`goto` only, reached from several arms): look one level further up, cloning it too
+                    if P["term"]["k"] == "goto" and len(prefix) < 2 and len(P["stmts"]) <= 2 and len(set(preds.get(pi, []))) >= 2:
+                        cands += [(pp, [pi] + prefix) for pp in sorted(set(preds.get(pi, [])))]
+                    continue
                 val = denv[d]
                 tgt = dict((v, x) for v, x in S["term"]["targets"]).get(val, S["term"]["otherwise"])
                 # clone the chain for this predecessor
-                base = len(blocks); remap = {ci: base + k for k, ci in enumerate(chain)}
-                for ci in chain:
+                base = len(blocks); remap = {ci: base + k for k, ci in enumerate(full)}
+                for ci in full:
                     cb = blocks[ci]
                     nb = {"i": remap[ci], "cleanup": False, "stmts": json.loads(json.dumps(cb["stmts"])), "term": json.loads(json.dumps(cb["term"])), "threaded_from": ci}
                     if ci == S["i"]: nb["term"] = {"k": "goto", "target": tgt, "span": cb["term"]["span"], "threaded": val}
-                    else: nb["term"]["target"] = remap[chain[chain.index(ci) + 1]]
+                    else: nb["term"]["target"] = remap[full[full.index(ci) + 1]]
                     blocks.append(nb)
                 t = P["term"] = json.loads(json.dumps(P["term"]))
                 if t["k"] == "switch":
-                    t["targets"] = [[v, remap[head] if x == head else x] for v, x in t["targets"]]
-                    if t["otherwise"] == head: t["otherwise"] = remap[head]
-                else: t["target"] = remap[head]
+                    t["targets"] = [[v, remap[first] if x == first else x] for v, x in t["targets"]]
+                    if t["otherwise"] == first: t["otherwise"] = remap[first]
+                else: t["target"] = remap[first]
                 changed = True
             if changed: break
 
